@@ -122,6 +122,11 @@ class Graph(object):
     def __init__(self, t=None):
         self.vkind = "obj" if t is None else \
             VKINDS[t.weighted([10, 2, 2, 3, 2, 1])]
+        # dense keys: nets get the regions of a prefix-free split of a small
+        # key space (orthogonal, of mixed generality, adjacent - the food of
+        # the covering minimiser); 0 = each net has its own upper 20 bits
+        self.dense_bits = 0 if t is None else [0, 0, 3, 4, 6][t.draw(5)]
+        self.free_regions = [(0, 0)]
         self.vertices_resources = collections.OrderedDict()
         self.nets = []
         self.net_keys = collections.OrderedDict()
@@ -158,6 +163,8 @@ def new_vertex(t, g, par, kind=None, sdram_max=2000):
         pass                         # needs nothing at all
     if t.draw(8) == 0:
         res[par.SRAM] = t.draw(64)
+    if len(res) > 1 and t.draw(3) == 0:
+        res = collections.OrderedDict(reversed(list(res.items())))
     g.vertices_resources[v] = res
     return v
 
@@ -185,11 +192,33 @@ def add_net(t, g, par, max_fanout=12):
     ident = len(g.nets)
     net = HNet(src, sinks, weight, ident=ident)
     g.nets.append(net)
-    # orthogonal keys: distinct upper 20 bits, mixed generality
-    mask = [0xffffffff, 0xfffff000, 0xffffff00, 0xfffffff0][t.draw(4)]
-    key = ((ident + 1) << 12) | (t.draw(1 << 12) & mask & 0xfff)
-    g.net_keys[net] = (key & mask, mask)
+    km = dense_key(t, g) if g.dense_bits else None
+    if km is None:
+        # orthogonal keys: distinct upper 20 bits, mixed generality
+        mask = [0xffffffff, 0xfffff000, 0xffffff00, 0xfffffff0][t.draw(4)]
+        key = ((ident + 1) << 12) | (t.draw(1 << 12) & mask & 0xfff)
+        km = (key & mask, mask)
+    g.net_keys[net] = km
+    if t.draw(30) == 0:
+        # the caller lists the very same net twice
+        g.nets.append(g.nets[t.draw(len(g.nets))])
     return net
+
+
+def dense_key(t, g):
+    """The next region of the prefix-free split (None when used up)."""
+    if not g.free_regions:
+        return None
+    db = g.dense_bits
+    prefix, plen = g.free_regions.pop(t.draw(len(g.free_regions)))
+    while plen < db and t.draw(4) != 0:
+        bit = t.draw(2)
+        g.free_regions.append(((prefix << 1) | (1 - bit), plen + 1))
+        prefix, plen = (prefix << 1) | bit, plen + 1
+    key = prefix << (db - plen)
+    mask = (((1 << plen) - 1) << (db - plen)) | \
+        (0xffffffff & ~((1 << db) - 1))
+    return key, mask
 
 
 def packet_key(t, key, mask):
